@@ -3455,7 +3455,8 @@ static CK_RV SymDecryptUpdate(Session* session, CK_BYTE_PTR pEncryptedData, CK_U
 		// There must always be one block left in padding mode if next operation is DecryptFinal.
 		// To guarantee that one byte is removed in padding mode when the number of blocks is calculated.
 		size_t paddingAdjustByte = cipher->getPaddingMode() ? 1 : 0;
-		int nrOfBlocks = (ulEncryptedDataLen + remainingSize - paddingAdjustByte) / blockSize;
+		size_t totalSize = ulEncryptedDataLen + remainingSize;
+		size_t nrOfBlocks = totalSize < paddingAdjustByte ? 0 : (totalSize - paddingAdjustByte) / blockSize;
 		maxSize = nrOfBlocks * blockSize;
 	}
 	if (!cipher->checkMaximumBytes(ulEncryptedDataLen))
